@@ -348,6 +348,22 @@ fn c17_ws_server_burst(case: &Case) {
         let (mut sink, stream) = ws.split();
         let inbox = Arc::new(Inbox::default());
         let collector = spawn_collector(stream, inbox.clone());
+        // a passive second peer: it never sends anything, so nothing but the broadcasts
+        // themselves can flush what is queued for it
+        let passive = if ops.iter().any(|o| matches!(o, Op::Burst { broadcast: true, .. })) && simkernel::choose(2) == 0 {
+            match raw_connect(addr, "/repe").await {
+                Ok(ws2) => {
+                    let (sink2, stream2) = ws2.split();
+                    let inbox2 = Arc::new(Inbox::default());
+                    let c2 = spawn_collector(stream2, inbox2.clone());
+                    sleep_ms(5).await;
+                    Some((sink2, inbox2, c2))
+                }
+                Err(_) => None,
+            }
+        } else {
+            None
+        };
         // everything pipelined: nothing waits for anything until the barrier
         let mut id = 0u64;
         for op in &ops {
@@ -430,7 +446,41 @@ fn c17_ws_server_burst(case: &Case) {
             }
         }
         let reported = too_large.lock().unwrap().iter().filter(|e| e.0 == "/pushed").count();
-        case.check(reported == expect_dropped, "drop-not-reported", || format!("{expect_dropped} oversized notifies dropped but on_error saw {reported} OutboundTooLarge reports for /pushed"));
+        let peers = if passive.is_some() { 2 } else { 1 };
+        if passive.is_none() {
+            case.check(reported == expect_dropped, "drop-not-reported", || format!("{expect_dropped} oversized notifies dropped but on_error saw {reported} OutboundTooLarge reports for /pushed"));
+        } else {
+            // (with two peers the per-peer outcome of a broadcast is not visible to the handler:
+            // only the lower bound is checked)
+            let _ = peers;
+            case.check(reported >= expect_dropped, "drop-not-reported", || format!("{expect_dropped} oversized notifies dropped on the active peer but on_error saw only {reported} OutboundTooLarge reports for /pushed"));
+        }
+        // the passive peer got every broadcast that fits, without any other traffic to it
+        if let Some((mut sink2, inbox2, c2)) = passive {
+            sleep_ms(2_000).await;
+            let frames2 = inbox2.frames();
+            for (k, op) in ops.iter().enumerate() {
+                let Op::Burst { sizes, broadcast: true } = op else { continue };
+                let rid = k as u64 + 1;
+                for (j, size) in sizes.iter().enumerate() {
+                    let tag = rid * 100 + j as u64;
+                    let n = size - 48 - "/pushed".len();
+                    let got = frames2.iter().filter(|f| f.notify != 0 && f.query == b"/pushed" && f.body.len() == n && is_pattern(tag, &f.body)).count();
+                    if limit.is_some_and(|l| *size > l) {
+                        case.check(got == 0, "oversized-notify-sent", || format!("passive peer: broadcast {k} message {j} of {size} B over limit {limit:?} reached the wire"));
+                    } else if !queue_was_full {
+                        case.check(got == 1, "notify-not-delivered", || format!("passive peer: broadcast {k} message {j} of {size} B within limit {limit:?} was queued but {got} copies arrived within 2 s (no other traffic on that connection)"));
+                    }
+                }
+            }
+            case.probe("passive_peer_received_broadcasts");
+            if let Some(l) = limit {
+                let m = inbox2.max_binary.load(Ordering::SeqCst);
+                case.check(m <= l, "message-over-limit", || format!("passive peer: a binary message of {m} bytes was sent, assumed peer frame limit {l}"));
+            }
+            let _ = tokio::time::timeout(Duration::from_secs(2), sink2.close()).await;
+            let _ = tokio::time::timeout(Duration::from_secs(2), c2).await;
+        }
         if queue_was_full {
             case.probe("outbound_queue_full_during_burst");
         }
